@@ -5,6 +5,7 @@ import json, sys, time
 import z3
 
 sys.setrecursionlimit(20000)
+TRACE = bool(__import__('os').environ.get('VERIF_TRACE'))
 INT_BITS = {'int': 64, 'int64': 64, 'uint': 64, 'uint64': 64, 'uintptr': 64, 'int32': 32, 'rune': 32,
             'uint32': 32, 'int16': 16, 'uint16': 16, 'int8': 8, 'uint8': 8, 'byte': 8,
             'untyped int': 64, 'untyped rune': 32}
@@ -184,6 +185,22 @@ class Blocked(Exception):
     pass
 
 
+class ProtoCell:
+    """the single 'byte' of the slice returned by proto.Marshal: remembers the message (round-trip contract);
+    alts = ((guard, dyntype|None, value), ...), dyntype None = bytes that do not decode"""
+    __slots__ = ('alts',)
+
+    def __init__(self, alts):
+        self.alts = tuple(alts)
+
+
+def protocell_merge(c, a, b):
+    la = a.alts if isinstance(a, ProtoCell) else ((True, None, None),)
+    lb = b.alts if isinstance(b, ProtoCell) else ((True, None, None),)
+    out = [(sb(And(c, g)), dt, v) for g, dt, v in la] + [(sb(And(Not(c), g)), dt, v) for g, dt, v in lb]
+    return ProtoCell([x for x in out if x[0] is not False])
+
+
 class RangeIter:
     __slots__ = ('kind', 'x', 'pos', 'snapshot')
 
@@ -193,6 +210,7 @@ class RangeIter:
 
 
 NILPTR = Ptr(((True, None, ()),))
+OPAQUE_ERROR_TYPES = {'*errors.errorString', '*fmt.wrapError'}
 
 
 def is_sym(v):
@@ -441,6 +459,8 @@ class Engine:
         self.cuts = {}
         self.env_vars = {}
         self.params = {}
+        self.aspects = {}
+        self.incoming_md = None
         self.naming = True
         self.ndefs = 0
         self.defs = []
@@ -520,6 +540,8 @@ class Engine:
         if k == 'bool':
             return ite_bool(c, a, b)
         if k == 'int':
+            if isinstance(a, ProtoCell) or isinstance(b, ProtoCell):
+                return protocell_merge(c, a, b)
             bits, signed = self.int_info(t)
             return ite_int(c, a, b, bits, signed)
         if k == 'string':
@@ -784,6 +806,31 @@ class Engine:
                 return c
         raise Unsupported('no small upper bound for symbolic size')
 
+    def upper_bound_bin(self, st, n, hi):
+        """smallest c in [0, hi] such that pc => n <= c (binary search with the solver); hi must be a valid bound"""
+        if not is_sym(n):
+            return n
+        lo = 0
+        while lo < hi:
+            mid = (lo + hi) // 2
+            if self.feasible(And(st.pc, z3.UGT(n, mid))):
+                lo = mid + 1
+            else:
+                hi = mid
+        return lo
+
+    def tighten(self, st, s, threshold=6):
+        """shrink the static length bound of a symbolic string to what the path condition allows"""
+        if not isinstance(s, SymStr) or not is_sym(s.len) or s.maxlen <= threshold:
+            return s
+        ub = self.upper_bound_bin(st, s.len, s.maxlen)
+        if ub >= s.maxlen:
+            return s
+        self.stats['tightened'] = self.stats.get('tightened', 0) + 1
+        if not is_sym(s.off):
+            return SymStr(s.cells[:s.off + ub], s.off, s.len, ub)
+        return SymStr(s.cells, s.off, s.len, ub)
+
     def panic(self, st, cond, what):
         """cond: condition under which the panic happens; continues with pc & !cond"""
         bad = sb(And(st.pc, cond))
@@ -936,6 +983,9 @@ class Engine:
         if fn is None or fn.get('external'):
             raise Unsupported('external callee without model: ' + fname)
         self.stats['funcs'][fname] = self.stats['funcs'].get(fname, 0) + 1
+        if TRACE:
+            print('%s> %s' % ('  ' * self.depth, fname.rsplit('/', 1)[-1]), file=sys.stderr, flush=True)
+            _t0 = time.time()
         pos, loops, dom, rt, live_in = self.analyse(fn)
         blocks = fn['blocks']
         env = {p['n']: a for p, a in zip(fn['params'] or [], args)}
@@ -993,6 +1043,8 @@ class Engine:
                         iters[tgt] = 0
                     pending.setdefault(tgt, []).append(s2)
         self.depth -= 1
+        if TRACE:
+            print('%s< %s %.2fs feas=%d' % ('  ' * self.depth, fname.rsplit('/', 1)[-1], time.time() - _t0, self.stats['feas']), file=sys.stderr, flush=True)
         rtypes = self.T(fn.get('results') or '').get('elems') or []
         if not rets:
             st.pc = False
@@ -1047,7 +1099,12 @@ class Engine:
                     return extra
                 raise
             except Unsupported as e:
-                raise Unsupported('%s in %s block %d: %s' % (e, fn['name'], blk['index'], json.dumps(ins)[:300]))
+                msg = str(e)
+                if ' @@ ' not in msg:
+                    msg = '%s @@ %s block %d: %s' % (msg, fn['name'], blk['index'], json.dumps(ins)[:240])
+                else:
+                    msg = msg + ' < ' + fn['name'].rsplit('/', 1)[-1]
+                raise Unsupported(msg[:1200])
             if 'name' in ins:
                 st.env[ins['name']] = r
             if self.requeue:
@@ -1077,7 +1134,10 @@ class Engine:
                     opf = {'<': operator.lt, '<=': operator.le, '>': operator.gt, '>=': operator.ge}[tok]
                     return choice_bool(choice_map(opf, x, y))
             if tok == '+':
-                return sym_concat(x, y)
+                return self.tighten(st, sym_concat(x, y))
+            if tok in ('<', '<=', '>', '>='):
+                lt = str_lt(x, y) if tok in ('<', '>=') else str_lt(y, x)
+                return lt if tok in ('<', '>') else Not(lt)
             raise Unsupported('string op ' + tok + ' on symbolic strings')
         if k == 'bool':
             if tok == '==':
@@ -1414,11 +1474,14 @@ class Engine:
                     nilg = Or(nilg, g)
                     continue
                 target = self.methods.get(dt, {}).get(c['invoke'])
-                if target is None:
-                    raise Unsupported('no method %s on %s' % (c['invoke'], dt))
                 s2 = st if len(recv.alts) == 1 else st.copy()
                 s2.pc = sb(And(base_pc, g))
-                r = self.call(s2, target, [v] + args, ins)
+                if target is None and c['invoke'] == 'Error' and (isinstance(v, Opaque) or dt in OPAQUE_ERROR_TYPES):
+                    r = b'<error text>'      # message of an error created by an intrinsic: only flows into log/error text
+                elif target is None:
+                    raise Unsupported('no method %s on %s' % (c['invoke'], dt))
+                else:
+                    r = self.call(s2, target, [v] + args, ins)
                 results.append((s2, r))
             if nilg is not False:
                 bad = sb(And(base_pc, nilg))
@@ -1808,6 +1871,97 @@ def i_param(e, st, a, i):
     return e.params[a[0].decode()]
 
 
+def i_proto_marshal(e, st, a, i):
+    """proto.Marshal(m): an opaque byte slice that remembers the message value (Unmarshal(Marshal(m)) == m)"""
+    m = a[0]
+    elems = e.T(i['type'])['elems']
+    if isinstance(m, Opaque) or len(m.alts) != 1 or m.alts[0][1] is None:
+        raise Unsupported('proto.Marshal of a non-single message')
+    (g, dt, ptr), = m.alts
+    val = e.load(st, ptr, None)
+    obj = e.new_obj(st, (ProtoCell(((True, dt, val),)),), None)
+    return (SliceV(obj, 0, 1, 1, False), e.zero(elems[1]))
+
+
+def i_proto_unmarshal(e, st, a, i):
+    """proto.Unmarshal(b, dst): succeeds iff b came from proto.Marshal of a message of dst's type (copies the value);
+    any other byte slice is treated as undecodable (error). Contract model, see DESIGN.md 2.3."""
+    b, dst = a
+    errt = i['type']
+    (g, dt, ptr), = dst.alts
+    err = Iface(((True, '*errors.errorString', Opaque('proto-unmarshal-error')),))
+    if is_sym(b.len):
+        raise Unsupported('proto.Unmarshal of a slice with symbolic length')
+    if b.obj is None or b.len == 0:
+        return e.zero(errt)          # empty input decodes to the zero message
+    cell = st.heap[b.obj][b.off]
+    if not isinstance(cell, ProtoCell):
+        return err
+    okg = False
+    _, pd = e.under(dt)
+    for g2, dt2, val in cell.alts:
+        if dt2 == dt:
+            old = e.load(st, ptr, pd['elem'])
+            e.store(st, ptr, e.merge_val(g2, val, old, pd['elem'], st.heap, st.heap, st.heap), None)
+            okg = Or(okg, g2)
+    okg = sb(okg)
+    if okg is True:
+        return e.zero(errt)
+    if okg is False:
+        return err
+    return e.merge_val(okg, e.zero(errt), err, errt, st.heap, st.heap, st.heap)
+
+
+def i_set_aspect(e, st, a, i):
+    """(*topo.Object).SetAspect(msg): remembered per object and message type (the Any/JSON encoding is not executed)"""
+    optr, msg = a
+    (g, dt, ptr), = msg.alts
+    (g2, obj, path), = optr.alts
+    val = e.load(st, ptr, None)
+    e.aspects[(obj, path, dt)] = val
+    return e.zero(i['type'])
+
+
+def i_get_aspect(e, st, a, i):
+    optr, dst = a
+    (g, dt, ptr), = dst.alts
+    errt = i['type']
+    err = Iface(((True, '*errors.errorString', Opaque('aspect-not-found')),))
+    nilg = Or(*[g2 for g2, obj, path in optr.alts if obj is None])
+    if nilg is not False:
+        e.panic(st, nilg, 'nil-deref')
+    _, pd = e.under(dt)
+    okg = False
+    for g2, obj, path in optr.alts:
+        if obj is None:
+            continue
+        key = (obj, path, dt)
+        if key in e.aspects:
+            old = e.load(st, ptr, pd['elem'])
+            e.store(st, ptr, e.merge_val(g2, e.aspects[key], old, pd['elem'], st.heap, st.heap, st.heap), None)
+            okg = Or(okg, g2)
+    nn = [x for x in optr.alts if x[1] is not None]
+    if len(nn) == 1 and okg is not False:
+        return e.zero(errt)
+    okg = sb(okg)
+    if okg is True:
+        return e.zero(errt)
+    if okg is False:
+        return err
+    return e.merge_val(okg, e.zero(errt), err, errt, st.heap, st.heap, st.heap)
+
+
+def i_md_new_incoming(e, st, a, i):
+    e.incoming_md = a[1]
+    return Opaque('ctx')
+
+
+def i_md_from_incoming(e, st, a, i):
+    if e.incoming_md is None:
+        return (MapV(((True, None),)), False)
+    return (e.incoming_md, True)
+
+
 def i_setenv(e, st, a, i):
     e.env_vars[a[0]] = a[1]
     return None
@@ -1995,6 +2149,25 @@ def sym_concat(a, b):
     return SymStr(cells, 0, si(la + to_bv(b.len, 64)), n)
 
 
+def str_lt(x, y):
+    """lexicographic x < y on symbolic strings (byte-wise)"""
+    x, y = sym(x), sym(y)
+    n = max(x.maxlen, y.maxlen)
+    lx, ly = to_bv(x.len, 64), to_bv(y.len, 64)
+    res = z3.BoolVal(False)
+    # from the last position backwards: lt_j = (j >= lx and j < ly) or (j < lx and j < ly and (x[j] < y[j] or (x[j] == y[j] and lt_{j+1})))
+    res = z3.ULT(lx, ly) if n == 0 else None
+    acc = z3.BoolVal(False)
+    for j in reversed(range(n + 1)):
+        inx, iny = z3.UGT(lx, j), z3.UGT(ly, j)
+        if j == n:
+            acc = z3.And(z3.Not(inx), iny)
+            continue
+        xj, yj = to_bv(str_at(x, j), 8), to_bv(str_at(y, j), 8)
+        acc = z3.Or(z3.And(z3.Not(inx), iny), z3.And(inx, iny, z3.Or(z3.ULT(xj, yj), z3.And(xj == yj, acc))))
+    return sb(acc)
+
+
 def sym_substr(s, lo, hi):
     s = sym(s)
     return SymStr(s.cells, add64(s.off, lo), si(to_bv(hi, 64) - to_bv(lo, 64)), s.maxlen)
@@ -2045,8 +2218,8 @@ def i_replace(e, st, a, i):
     ss = sym(s)
     head = sym_substr(ss, 0, o)
     tail = sym_substr(ss, si(to_bv(o, 64) + to_bv(str_len(old), 64)), ss.len)
-    res = sym_concat(sym_concat(head, new), tail)
-    return sym_ite_str(found, res, ss)
+    res = e.tighten(st, sym_concat(e.tighten(st, sym_concat(head, new)), tail))
+    return e.tighten(st, sym_ite_str(found, res, ss))
 
 
 def i_join(e, st, a, i):
@@ -2061,9 +2234,9 @@ def i_join(e, st, a, i):
         g = (j < sl.len) if not is_sym(sl.len) else sb(z3.UGT(to_bv(sl.len, 64), j))
         if g is False:
             break
-        nxt = x if j == 0 else sym_concat(sym_concat(acc, sep), x)
+        nxt = x if j == 0 else e.tighten(st, sym_concat(sym_concat(acc, sep), x))
         acc = nxt if g is True else sym_ite_str(g, nxt, acc)
-    return acc
+    return e.tighten(st, acc) if isinstance(acc, SymStr) else acc
 
 
 def i_hassuffix(e, st, a, i):
@@ -2295,7 +2468,13 @@ INTRINSICS = {
     'github.com/onosproject/onos-lib-go/pkg/uri.WithOpaque': lambda e, st, a, i: None,
     'github.com/onosproject/onos-lib-go/pkg/uri.NewURI': lambda e, st, a, i: NILPTR,
     '(*github.com/onosproject/onos-lib-go/pkg/uri.URI).String': lambda e, st, a, i: b'uuid:1',
-    'github.com/gogo/protobuf/proto.Marshal': lambda e, st, a, i: (SliceV(None, 0, 0, 0), e.zero(e.T(i['type'])['elems'][1])),
+    'github.com/gogo/protobuf/proto.Marshal': i_proto_marshal,
+    'github.com/gogo/protobuf/proto.Unmarshal': i_proto_unmarshal,
+    'github.com/golang/protobuf/proto.Marshal': i_proto_marshal,
+    'github.com/golang/protobuf/proto.Unmarshal': i_proto_unmarshal,
+    '(*github.com/onosproject/onos-api/go/onos/topo.Object).SetAspect': i_set_aspect,
+    'google.golang.org/grpc/metadata.NewIncomingContext': i_md_new_incoming,
+    'google.golang.org/grpc/metadata.FromIncomingContext': i_md_from_incoming,
     '(time.Time).Unix': lambda e, st, a, i: 0,
     'google.golang.org/grpc/status.New': lambda e, st, a, i: Ptr(((True, e.new_obj(st, (a[0],), None), ()),)),
     '(*google.golang.org/grpc/internal/status.Status).Err': lambda e, st, a, i: Iface(((True, '*google.golang.org/grpc/internal/status.Error', a[0]),)),
@@ -2326,7 +2505,7 @@ INTRINSICS = {
     'strings.EqualFold': i_equalfold,
     'strings.LastIndex': i_lastindex,
     'github.com/onosproject/onos-config/pkg/controller/utils.GetOnosConfigID': lambda e, st, a, i: b'gnmi:onos-config',
-    '(*github.com/onosproject/onos-api/go/onos/topo.Object).GetAspect': lambda e, st, a, i: e.zero(i['type']),
+    '(*github.com/onosproject/onos-api/go/onos/topo.Object).GetAspect': i_get_aspect,
 
     'github.com/onosproject/onos-config/internal/verifrt.NondetBool': lambda e, st, a, i: nondet(e, st, a, i, lambda n: z3.Bool(n)),
     'github.com/onosproject/onos-config/internal/verifrt.NondetUint64': lambda e, st, a, i: nondet(e, st, a, i, lambda n: z3.BitVec(n, 64)),
@@ -2375,6 +2554,9 @@ CUTS = {
 FORCE_STUB = {
     'github.com/onosproject/onos-config/pkg/controller/utils.GetOnosConfigID',
     '(*github.com/onosproject/onos-api/go/onos/topo.Object).GetAspect',
+    '(*github.com/onosproject/onos-api/go/onos/topo.Object).SetAspect',
+    'google.golang.org/grpc/metadata.NewIncomingContext',
+    'google.golang.org/grpc/metadata.FromIncomingContext',
     'verif.noop',
 }
 
